@@ -136,7 +136,7 @@ _DEPENDS = {
            _f(BATCH, None, "select_batch", "generate_batch", "fill_batch", "barrier_batch_selector",
               "topographical_batch_selector", "monotonic_batch_selector", "lowest_batch_selector", "sufficient_barrier",
               "get_excluded_minima"),
-    "C03": _MSIM,
+    "C03": _MSIM + _RECONV + _f(EXPL, NS, "get_minima", "get_transition_states", "connection_attempt", "run_connection_attempts"),
     "C04": _BOX,
     "C07": _ATOMS + _PERTS + _f(SIM, SS, "test_new_minimum", "is_new_minimum") + _f(MSIM, MS, "centre"),
     "C08": _ATOMS + _PERTS + _f(SIM, SS, "test_new_minimum", "is_new_minimum") + _f(MSIM, MS, "centre"),
